@@ -133,7 +133,11 @@ pub fn custom_value(r: &mut impl RngCore, max: usize) -> Item {
             let n = below(r, 20) as usize;
             Item::L(vec![Item::S(rand_bytes(r, n)), Item::S(vec![]), Item::S(vec![0])])
         }
-        10 => Item::S(vec![0]),
+        10 => {
+            // lengths where the RLP header form changes
+            let n = [54usize, 55, 56, 57, 0, 1][below(r, 6) as usize].min(max.max(1) + 2);
+            Item::S(vec![0x5a; n])
+        }
         _ => {
             let n = below(r, max.min(120) as u64) as usize;
             Item::S(rand_bytes(r, n))
@@ -588,9 +592,66 @@ pub fn header_flips(base: &[u8]) -> Vec<(&'static str, Vec<u8>)> {
 /// Size sweep: records whose total encoded size is exactly 290..=310 (valid signature).
 pub fn size_sweep(rec: &Rec) -> Vec<(&'static str, Vec<u8>)> {
     let mut out = Vec::new();
-    for target in 290..=310usize {
+    for target in (253..=262usize).chain(290..=310) {
         if let Some(r2) = pad_to(rec, b"pad", target) {
             out.push((if target <= 300 { "size-le-300" } else { "size-gt-300" }, r2.bytes()));
+        }
+    }
+    out
+}
+
+/// Records whose secp256k1 signature has special byte values (leading zero bytes in r or s, small s):
+/// found by varying a custom value until RefSig's deterministic signature satisfies the condition.
+pub fn ground_signatures(rec: &Rec, tries: u32) -> Vec<(&'static str, Vec<u8>)> {
+    let mut out: Vec<(&'static str, Vec<u8>)> = Vec::new();
+    if rec.key.scheme != Scheme::Secp {
+        return out;
+    }
+    let mut want: Vec<(&'static str, fn(&[u8]) -> bool)> = vec![
+        ("valid-sig-r-leading-zero", |s| s[0] == 0),
+        ("valid-sig-s-leading-zero", |s| s[32] == 0),
+        ("valid-sig-r-high-bit", |s| s[0] >= 0xf0),
+        ("valid-sig-trailing-zero", |s| s[63] == 0 || s[31] == 0),
+    ];
+    let mut r2 = rec.clone();
+    for i in 0..tries {
+        if want.is_empty() {
+            break;
+        }
+        r2.map.insert(b"g".to_vec(), Item::S(rlp::uint_bytes(i as u64 + 1)));
+        let items = r2.items();
+        let sg = rec.key.sign(&content_of(&items));
+        if let Some(pos) = want.iter().position(|(_, f)| f(&sg)) {
+            let (cls, _) = want.remove(pos);
+            out.push((cls, assemble_with_sig(&sg, &items)));
+        }
+    }
+    out
+}
+
+/// One record per byte value b with the custom key [b] and the values [b] / [b, b] / 55 x b.
+pub fn byte_sweep(key: &RefKey) -> Vec<(&'static str, Vec<u8>)> {
+    let mut out = Vec::new();
+    for b in 0..=255u8 {
+        let mut rec = Rec::minimal(*key, 1 + b as u64);
+        for (k, v) in [(vec![b], vec![b]), (vec![b, b], vec![b, b]), (vec![b, 0], vec![b; 55]), (vec![0x7f, b], vec![])] {
+            if k == b"id" || k == key.scheme.enr_key() {
+                continue;
+            }
+            rec.map.insert(k, Item::S(v));
+        }
+        out.push(("valid-byte-sweep", rec.bytes()));
+    }
+    // deeply nested list values (no recursion limit is specified; the record stays <= 300 bytes)
+    for depth in [1usize, 2, 5, 20, 60, 120, 180] {
+        let mut v = Item::L(vec![]);
+        for _ in 0..depth {
+            v = Item::L(vec![v]);
+        }
+        let mut rec = Rec::minimal(*key, 3);
+        rec.map.insert(b"nest".to_vec(), v);
+        if rec.size() <= 300 {
+            out.push(("valid-deep-nesting", rec.bytes()));
         }
     }
     out
